@@ -56,6 +56,11 @@ var c03Atoms = []string{
 var c03ParseTokens = []string{"for", "(", ")", "print", "printf", "delete", "x", "in", "a", ";", "{", "}", "getline", ",", "=", "1", "\"s\"", "/r/", "$", "if", "else", "while", "do",
 	"function", "return", "[", "]", "?", ":", "<", "|", "\n", "next", "exit", "++", "-"}
 
+// c03Stmts: the alphabet of part (e).
+var c03Stmts = []string{"while (x) ;", "for (;;) ;", "for (k in a) ;", "do ; while (x)", "while (x) { }", "for (i = 0; i < 1; i++) { }", "do { } while (x)",
+	"break", "continue", "next", "nextfile", "return", "return 1", "exit", "getline", "x++", ";", "{ }", "{ break }", "if (x) ;", "if (x) ; else ;", "if (x) break",
+	"while (x) break", "for (;;) { continue }", "while (x) { if (y) break; else continue }", "delete a", "print", "f()", "function g() { }"}
+
 var c03SubstBytes = []byte{'\n', '\r', '\\', '"', '/', '(', 'e', 0x00, 0xff}
 
 // ---------------------------------------------------------------- reference lexer
@@ -1160,6 +1165,54 @@ func c03Run(c *core.Ctx) {
 		}
 	}
 
+	// (e) statement sequences: every sequence of <= 3 statements over a statement
+	// alphabet (loops with empty bodies, jump statements in and out of place,
+	// empty statements, blocks) in each of the four containers: parser state
+	// that one statement leaves behind for the next (loop depth, function
+	// context) decides whether the next one is accepted.
+	if strings.Contains(parts, "a") {
+		stmts := c03Stmts
+		conts := [][2]string{{"BEGIN { ", " }"}, {"{ ", " }"}, {"function f(p) { ", " }"}, {"END { ", " }"}, {"x { ", " } END { break }"}}
+		for n := 1; n <= 3 && !c.Expired(); n++ {
+			idx := make([]int, n)
+			for {
+				if c.Mine() {
+					if c.Expired() {
+						break
+					}
+					for _, ct := range conts {
+						for _, sep := range []string{"; ", "\n"} {
+							buf = append(buf[:0], ct[0]...)
+							for k, i := range idx {
+								if k > 0 {
+									buf = append(buf, sep...)
+								}
+								buf = append(buf, stmts[i]...)
+							}
+							buf = append(buf, ct[1]...)
+							r.check(buf, "statements", nil)
+							if n == 1 {
+								break
+							}
+						}
+					}
+				}
+				k := n - 1
+				for k >= 0 {
+					idx[k]++
+					if idx[k] < len(stmts) {
+						break
+					}
+					idx[k] = 0
+					k--
+				}
+				if k < 0 {
+					break
+				}
+			}
+		}
+	}
+
 	// (b) corpus: prefixes, deletions, substitutions
 	maxFile, maxLit := 2048, 300
 	if thorough {
@@ -1245,6 +1298,7 @@ func init() {
 		Rule: "bounded-exhaustive enumeration of source texts: (a) every sequence of <=4 (quick) / <=5 (thorough) atoms over a 41-atom alphabet covering every lexer branch; " +
 			"(b) every prefix, every 1-byte deletion and every 1-byte substitution from 9 bytes at every offset of every corpus source (testdata programs up to 2 KiB quick / 8 KiB thorough and every string literal of the repo's test files); " +
 			"(c) 50 nesting towers / flat repetitions at k = 1..max with the text reaching 32 KiB, closed / unclosed / truncated; " +
+			"(e) every sequence of <=3 statements over a 29-statement alphabet (loops with empty bodies, jump statements in and out of place, empty statements) in 5 containers x 2 separators; " +
 			"(d) token sequences over a 36-token parser-oriented alphabet (statement keywords, brackets, getline, in, regex, ?:, <, |, newline ...): every sequence of <=4 tokens and every sequence of 5 (thorough 6) tokens starting with a statement keyword, as the body of BEGIN { } and (<=3 tokens) at top level. " +
 			"A state is one source text; a transition is one lexer API call (Scan, or ScanRegex after a division token — all 2^k choices are explored when the text has <=10 slashes, else 3 fixed policies) compared with the reference lexer; " +
 			"evaluations are ParseProgram calls plus runs of the real binary; a distinct outcome is accepted / (error message kind, line class, column class) / panic",
